@@ -206,3 +206,17 @@ def const_value(node: ast.AST):
         if isinstance(v, (int, float)):
             return float(v)
     return NotImplemented
+
+
+def guarding_branch(mod: Module, stmt: ast.AST):
+    """(if-node, core test, positive, branch statements) for the innermost `if` whose branch directly contains stmt.
+    Leading `not`s are stripped from the test: positive tells whether the branch runs when the core test is true."""
+    par = mod.parent.get(stmt)
+    if not isinstance(par, ast.If):
+        return None
+    in_body = any(stmt is x for x in par.body)
+    branch = par.body if in_body else par.orelse
+    test, positive = par.test, in_body
+    while isinstance(test, ast.UnaryOp) and isinstance(test.op, ast.Not):
+        test, positive = test.operand, not positive
+    return par, test, positive, branch
